@@ -422,6 +422,12 @@ def family(t):
 def similar(a, b):
     if a.key == b.key:
         return True
+    while a.kind == K_DISTINCT:
+        a = a.sub
+    while b.kind == K_DISTINCT:
+        b = b.sub
+    if a.key == b.key:
+        return True
     if K_ANY in (a.kind, b.kind) or K_OPT in (a.kind, b.kind) or K_EU in (a.kind, b.kind):
         return True
     if a.kind == K_VOID or b.kind == K_VOID:
@@ -1114,7 +1120,7 @@ def run(tier, seed):
     C.build_cli()
     C.build_rt()
     work = C.fresh_dir("C18")
-    nprog = 40 if tier == "quick" else 800
+    nprog = 40 if tier == "quick" else 600
     jobs = [(work, seed, i, NTYPES if i % 8 else 12) for i in range(nprog)]
     results = C.pmap(run_case, jobs)
     viol, inconc, shapes, samples, cnt = [], [], set(), [], {"programs": nprog, "programs_judged": 0}
